@@ -64,6 +64,8 @@ pub fn lookup(name: &str) -> Option<(&'static str, ScenFn)> {
         "determ" => (DETERM_RULE, determ as ScenFn),
         "migrate" => (MIGRATE_RULE, migrate as ScenFn),
         "zrtt" => (ZRTT_RULE, zrtt as ScenFn),
+        "mtu" => (MTU_RULE, mtu as ScenFn),
+        "hostile" => (HOSTILE_RULE, hostile as ScenFn),
         _ => return None,
     })
 }
@@ -1081,6 +1083,512 @@ pub fn zrtt(seed: u64, out: &mut Outcome) {
             }
         }
         eprintln!("net {:?} faults {:?}", sim.net, sim.faults);
+    }
+    for f in sim.fails.drain(..) {
+        out.fails.push(format!("{f} seed={seed}"));
+    }
+}
+
+
+pub const MTU_RULE: &str = "one execution = both peers with random initial_mtu {1200..1350}, MTU discovery bounds {1300..9000} / interval / black-hole cooldown / minimum_change, endpoint max_udp_payload_size {1200..65527}, controller, GSO batch 1..10; a network whose path MTU starts anywhere >= the initial_mtu values and changes 0..3 times at random instants to any value >= the min_mtu values (silently dropping larger datagrams), loss <= 3%; bulk workloads (streams up to 600 KB in large chunks, so the sender is window-limited when probes fall due) and datagrams; oracles: every datagram <= the MTU estimate of its time except one single probe, no probe above min(upper_bound, peer max_udp_payload_size), the estimate rises only to the size of a probe sent before (or initial_mtu), GSO segment count, and the workload completes after every shrink (black-hole fallback); non-trivial = >= 1 probe sent, >= 50 KB delivered and (an MTU rise or a shrink below the estimate)";
+
+pub fn mtu(seed: u64, out: &mut Outcome) {
+    let mut rng = Rng::new(seed ^ 0x3707);
+    let mut rules = [MtuRule { initial: 1200, probe_cap: 0 }; 2];
+    let mut tcs = Vec::new();
+    let mut min_mtus = [1200u16; 2];
+    let mut upper = [0u16; 2];
+    for side in 0..2 {
+        let mut t = TransportConfig::default();
+        let initial = *rng.pick(&[1200u16, 1200, 1280, 1350]);
+        t.initial_mtu(initial);
+        let min = if rng.chance(1, 3) { initial } else { 1200 };
+        t.min_mtu(min);
+        min_mtus[side] = min;
+        let mut m = MtuDiscoveryConfig::default();
+        upper[side] = *rng.pick(&[1300u16, 1452, 1452, 2000, 9000]);
+        m.upper_bound(upper[side]);
+        if rng.chance(1, 2) {
+            m.interval(Duration::from_secs(*rng.pick(&[2u64, 5, 30])));
+        }
+        if rng.chance(1, 2) {
+            m.black_hole_cooldown(Duration::from_secs(*rng.pick(&[1u64, 3, 10])));
+        }
+        if rng.chance(1, 3) {
+            m.minimum_change(*rng.pick(&[5u16, 20, 64]));
+        }
+        if rng.chance(1, 8) {
+            t.mtu_discovery_config(None);
+        } else {
+            t.mtu_discovery_config(Some(m));
+        }
+        match rng.below(3) {
+            0 => {
+                t.congestion_controller_factory(Arc::new(congestion::NewRenoConfig::default()));
+            }
+            1 => {
+                t.congestion_controller_factory(Arc::new(congestion::BbrConfig::default()));
+            }
+            _ => {}
+        }
+        if rng.chance(1, 5) {
+            t.enable_segmentation_offload(false);
+        }
+        t.max_idle_timeout(Some(IdleTimeout::try_from(Duration::from_secs(120)).unwrap()));
+        rules[side].initial = initial;
+        tcs.push(t);
+    }
+    let ts = tcs.pop().unwrap();
+    let tc = tcs.pop().unwrap();
+    // endpoints with their own max_udp_payload_size (what the peer may probe up to)
+    let mups = [*rng.pick(&[1200u16, 1350, 1472, 1472, 9000, 65527]), *rng.pick(&[1200u16, 1350, 1472, 1472, 9000, 65527])];
+    let clock = SimClock(Arc::new(std::sync::Mutex::new(std::time::UNIX_EPOCH + Duration::from_secs(1_700_000_000))));
+    let mut ecs = endpoint_config(seed ^ 1, 8, None);
+    ecs.max_udp_payload_size(mups[SERVER]).unwrap();
+    let mut ecc = endpoint_config(seed ^ 2, 8, None);
+    ecc.max_udp_payload_size(mups[CLIENT]).unwrap();
+    let server = quinn_proto::Endpoint::new(Arc::new(ecs), Some(Arc::new(server_config(seed, ts, &clock))), true);
+    let client = quinn_proto::Endpoint::new(Arc::new(ecc), None, true);
+    let mut sim = Sim::new(seed, client, server, clock);
+    let ccfg = client_config(seed, tc);
+    for side in 0..2 {
+        rules[side].probe_cap = (upper[side] as usize).min(mups[1 - side] as usize);
+    }
+    // a peer max_udp_payload_size below our initial_mtu lowers the estimate before the first transmit; a fresh
+    // path then starts from that value, not from initial_mtu
+    for side in 0..2 {
+        rules[side].initial = rules[side].initial.min(mups[1 - side]);
+    }
+    sim.mtu_rules = Some(rules);
+    sim.model_trace = true;
+    sim.net.latency_ns = *rng.pick(&[1_000_000u64, 10_000_000, 40_000_000]);
+    sim.net.jitter_ns = *rng.pick(&[0u64, 0, 1_000_000]);
+    sim.net.drop_permille = *rng.pick(&[0u64, 0, 10, 30]);
+    let floor_start = rules[0].initial.max(rules[1].initial) as usize;
+    let floor_later = min_mtus[0].max(min_mtus[1]) as usize;
+    let sizes = [1200usize, 1250, 1280, 1326, 1350, 1400, 1452, 1500, 2000, 4000, 9000, 65000];
+    let pick_ge = |rng: &mut Rng, lo: usize| -> usize {
+        let c: Vec<usize> = sizes.iter().copied().filter(|x| *x >= lo).collect();
+        *rng.pick(&c)
+    };
+    sim.net.path_mtu = pick_ge(&mut rng, floor_start);
+    let mut changes: Vec<(u64, usize)> = (0..rng.below(4)).map(|_| (rng.range(2, 400) * sim.net.latency_ns, pick_ge(&mut rng, floor_later))).collect();
+    changes.sort();
+    sim.nodes[CLIENT].max_datagrams = rng.range(1, 10) as usize;
+    sim.nodes[SERVER].max_datagrams = rng.range(1, 10) as usize;
+    let mut w = Workload::new(seed);
+    let big = |rng: &mut Rng| Plan {
+        dir: if rng.chance(1, 2) { quinn_proto::Dir::Bi } else { quinn_proto::Dir::Uni },
+        len: rng.range(60_000, 600_000),
+        chunk: *rng.pick(&[5000usize, 70000, 70000]),
+        finish: true,
+        reset_at: None,
+    };
+    w.sides[CLIENT].plans = (0..rng.range(1, 2)).map(|_| big(&mut rng)).collect();
+    w.sides[SERVER].plans = (0..rng.below(2)).map(|_| big(&mut rng)).collect();
+    for s in 0..2 {
+        if rng.chance(1, 3) {
+            for _ in 0..rng.below(6) {
+                let len = rng.below(1150) as usize;
+                w.sides[s].dgrams_to_send.push(rng.bytes(len));
+            }
+        }
+    }
+    let cch = sim.connect(ccfg);
+    w.ch[CLIENT] = Some(cch);
+    let mut shrinks_below = 0u64;
+    let mut next_change = 0usize;
+    let end = sim.run_until(900_000_000_000, 600_000, |sim| {
+        if w.ch[SERVER].is_none() {
+            if let Some(&ch) = sim.nodes[SERVER].accepted.first() {
+                w.ch[SERVER] = Some(ch);
+            }
+        }
+        while next_change < changes.len() && sim.now >= changes[next_change].0 {
+            let to = changes[next_change].1;
+            let est = sim.nodes[CLIENT].conns[&cch].conn.current_mtu() as usize;
+            if to < est {
+                shrinks_below += 1;
+            }
+            sim.net.path_mtu = to;
+            next_change += 1;
+        }
+        w.tick(sim);
+        w.complete() && w.ch[SERVER].is_some()
+    });
+    let connected = sim.nodes[CLIENT].conns[&cch].obs.connected;
+    let lost_c = sim.nodes[CLIENT].conns[&cch].obs.lost.clone();
+    if connected && (!lost_c.is_empty() || !w.complete()) && w.ch[SERVER].is_some() {
+        sim.fail(
+            "mtu-blackhole-no-recovery",
+            format!("workload incomplete / connection lost ({lost_c:?}) with path MTU {} (changes {changes:?}), estimates c={} s={}; end {end:?}", sim.net.path_mtu, sim.nodes[CLIENT].conns[&cch].conn.current_mtu(), w.ch[SERVER].map_or(0, |ch| sim.nodes[SERVER].conns[&ch].conn.current_mtu())),
+        );
+    }
+    w.final_check(&mut sim, false);
+    out.runs += 1;
+    out.evaluations += sim.steps;
+    let bytes: u64 = w.sides.iter().map(|s| s.recv.values().map(|r| r.bytes).sum::<u64>()).sum();
+    let mut probes = 0;
+    let mut rises = 0;
+    for node in 0..2 {
+        for nc in sim.nodes[node].conns.values() {
+            probes += nc.obs.oversize_sent;
+            rises += nc.obs.mtu_rises;
+        }
+    }
+    if probes > 0 && bytes >= 50_000 && (rises > 0 || shrinks_below > 0) {
+        out.nontrivial += 1;
+    }
+    out.count(&format!("end:{end:?}"), 1);
+    out.count("probes-sent", probes);
+    out.count("mtu-rises", rises);
+    out.count("path-shrinks-below-estimate", shrinks_below);
+    out.count("path-mtu-changes", changes.len() as u64);
+    out.count("stream-bytes-read", bytes);
+    out.count("black-holes-detected", sim.nodes.iter().flat_map(|n| n.conns.values()).map(|nc| nc.conn.stats().path.black_holes_detected).sum());
+    for (k, v) in &sim.faults {
+        out.count(&format!("fault:{k}"), *v);
+    }
+    if out.samples.len() < 2 {
+        out.samples.push(format!("seed {seed}: rules {rules:?} path_mtu changes {changes:?}; end {end:?} at t={}ms; probes {probes} rises {rises} bytes {bytes}", sim.now / 1_000_000));
+    }
+    if std::env::var("VERIF_SIM_VERBOSE").is_ok() {
+        eprintln!("--- seed {seed}: end {end:?} net {:?} rules {rules:?} changes {changes:?}", sim.net);
+        for node in 0..2 {
+            for (ch, nc) in &sim.nodes[node].conns {
+                eprintln!("node {node} conn {ch}: obs lost {:?} probes {:?} stats {:?}", nc.obs.lost, nc.obs.probe_sizes, nc.conn.stats().path);
+            }
+        }
+    }
+    for f in sim.fails.drain(..) {
+        out.fails.push(format!("{f} seed={seed}"));
+    }
+    out.take_trace(seed, &mut sim);
+}
+
+
+pub const HOSTILE_RULE: &str = "one execution = one endpoint pair, a bystander connection B that completes its handshake undisturbed and then transfers, and a victim connection A opened afterwards; from then on an attacker injects 20..400 unauthenticated datagrams at random instants into either endpoint, from the genuine peer address or a foreign one: random bytes of every length 0..64 and boundary lengths up to 1500 with long/short first byte, and structure-aware mutations of genuine datagrams seen on the wire (version 0/1/grease/random, DCID/SCID length bytes 0/1/20/21/255, token-length and Length varints 0/1/past-the-end/2^62-1, packet type and fixed bit, truncation at every header boundary and at random, coalescing with another genuine or garbage datagram, bit flips); in half of the executions only datagrams of A are mutated; oracles: no panic anywhere in Endpoint::handle / Connection::{handle_event,handle_timeout,poll_transmit,poll} (C03); when only A is attacked, B is never lost and completes its workload with intact content (C03: other connections unaffected); in every execution no connection that the client had seen established is lost and both complete, and A may fail before that only by a (forged) Version Negotiation (C04: forged packets are discarded without effect); the number of server connections stays <= 2 + attack datagrams; bounded steps; non-trivial = both handshakes completed and >= 20 hostile datagrams were processed";
+
+fn varint_bytes(v: u64) -> Vec<u8> {
+    if v < 64 {
+        vec![v as u8]
+    } else if v < 16384 {
+        (0x4000u16 | v as u16).to_be_bytes().to_vec()
+    } else if v < (1 << 30) {
+        (0x8000_0000u32 | v as u32).to_be_bytes().to_vec()
+    } else {
+        (0xc000_0000_0000_0000u64 | v).to_be_bytes().to_vec()
+    }
+}
+
+/// Structure-aware mutation of a genuine datagram.
+fn hostile_mutate(rng: &mut Rng, g: &[u8], other: &[u8]) -> (Vec<u8>, &'static str) {
+    let mut d = g.to_vec();
+    if d.is_empty() {
+        return (vec![0xc0], "empty");
+    }
+    let long = d[0] & 0x80 != 0;
+    // header boundaries of a long header
+    let mut bounds = vec![1usize];
+    let mut tok_at = None;
+    let mut len_at = None;
+    if long && d.len() >= 7 {
+        bounds.push(5);
+        let dl = d[5] as usize;
+        bounds.push(6);
+        let so = 6 + dl;
+        bounds.push(so);
+        if so < d.len() {
+            let sl = d[so] as usize;
+            let after = so + 1 + sl;
+            bounds.push(so + 1);
+            bounds.push(after);
+            let ty = (d[0] >> 4) & 3;
+            if after < d.len() {
+                if ty == 0 {
+                    tok_at = Some(after);
+                    let tl_len = 1usize << (d[after] >> 6);
+                    let mut tl = (d[after] & 0x3f) as u64;
+                    for i in 1..tl_len {
+                        tl = (tl << 8) | *d.get(after + i).unwrap_or(&0) as u64;
+                    }
+                    let la = after + tl_len + tl as usize;
+                    bounds.push(after + tl_len);
+                    if la < d.len() {
+                        len_at = Some(la);
+                        bounds.push(la);
+                    }
+                } else if ty != 3 {
+                    len_at = Some(after);
+                }
+            }
+        }
+    }
+    let bounds: Vec<usize> = bounds.into_iter().filter(|b| *b <= d.len()).collect();
+    let huge = [0u64, 1, 2, 63, 64, 1199, 16383, 16384, (1 << 30) - 1, 1 << 30, (1u64 << 62) - 1];
+    match rng.below(12) {
+        0 if long && d.len() >= 5 => {
+            let v: u32 = *rng.pick(&[0u32, 1, 2, 0xff00_001d, 0x0a1a_2a3a, 0xffff_ffff, 0x6b33_43cf]);
+            d[1..5].copy_from_slice(&v.to_be_bytes());
+            (d, "version")
+        }
+        1 if long && d.len() >= 6 => {
+            d[5] = *rng.pick(&[0u8, 1, 7, 9, 20, 21, 255]);
+            (d, "dcid-len")
+        }
+        2 if long && d.len() >= 7 => {
+            let so = 6 + d[5] as usize;
+            if so < d.len() {
+                d[so] = *rng.pick(&[0u8, 1, 7, 9, 20, 21, 255]);
+            }
+            (d, "scid-len")
+        }
+        3 if tok_at.is_some() => {
+            let at = tok_at.unwrap();
+            let old = 1usize << (d[at] >> 6);
+            let nv = varint_bytes(*rng.pick(&huge));
+            d.splice(at..(at + old).min(d.len()), nv);
+            (d, "token-len")
+        }
+        4 if len_at.is_some() => {
+            let at = len_at.unwrap();
+            let old = 1usize << (d[at] >> 6);
+            let nv = varint_bytes(*rng.pick(&huge));
+            d.splice(at..(at + old).min(d.len()), nv);
+            (d, "length")
+        }
+        5 => {
+            d[0] ^= *rng.pick(&[0x80u8, 0x40, 0x30, 0x10, 0x20, 0x0c, 0x04, 0x03, 0x01]);
+            (d, "first-byte")
+        }
+        6 => {
+            let b = *rng.pick(&bounds);
+            d.truncate(b);
+            (d, "truncate-boundary")
+        }
+        7 => {
+            let n = rng.below(d.len() as u64) as usize;
+            d.truncate(n);
+            (d, "truncate")
+        }
+        8 => {
+            d.extend_from_slice(other);
+            (d, "coalesce-genuine")
+        }
+        9 => {
+            let n = rng.below(80) as usize;
+            d.extend(rng.bytes(n));
+            (d, "append-garbage")
+        }
+        10 => {
+            // a shorter Length so that the tail is parsed as a second (garbage) packet
+            if let Some(at) = len_at {
+                let old = 1usize << (d[at] >> 6);
+                let nv = varint_bytes(rng.below(40));
+                d.splice(at..(at + old).min(d.len()), nv);
+            }
+            (d, "length-short")
+        }
+        _ => {
+            let k = 1 + rng.below(4);
+            for _ in 0..k {
+                let i = rng.below(d.len() as u64) as usize;
+                d[i] ^= 1 << rng.below(8);
+            }
+            (d, "bitflip")
+        }
+    }
+}
+
+pub fn hostile(seed: u64, out: &mut Outcome) {
+    let mut rng = Rng::new(seed ^ 0x4057);
+    let (mut tc, lim_c) = random_transport(&mut rng);
+    let (mut ts, lim_s) = random_transport(&mut rng);
+    // no idle timeout: a connection that has finished its workload may legitimately sit idle while the other works
+    tc.max_idle_timeout(None);
+    ts.max_idle_timeout(None);
+    let (mut sim, ccfg) = default_pair(seed, tc, ts);
+    sim.keep_history = true;
+    sim.net.latency_ns = *rng.pick(&[1_000_000u64, 10_000_000]);
+    sim.net.path_mtu = 65000;
+    sim.nodes[CLIENT].max_datagrams = rng.range(1, 10) as usize;
+    sim.nodes[SERVER].max_datagrams = rng.range(1, 10) as usize;
+    if rng.chance(1, 4) {
+        sim.nodes[SERVER].policy = IncomingPolicy::Retry;
+    }
+    let di = |d: quinn_proto::Dir| if d == quinn_proto::Dir::Bi { 0 } else { 1 };
+    let mut ws: Vec<Workload> = Vec::new();
+    for k in 0..2u64 {
+        let mut w = Workload::new(seed ^ (k << 20));
+        let (nc, ns) = (1 + rng.below(3) as usize, rng.below(2) as usize);
+        w.sides[CLIENT].plans = Workload::random_plans(&mut rng, nc, 150_000);
+        w.sides[SERVER].plans = Workload::random_plans(&mut rng, ns, 60_000);
+        w.sides[CLIENT].plans.retain(|p| lim_s[di(p.dir)] > 0);
+        w.sides[SERVER].plans.retain(|p| lim_c[di(p.dir)] > 0);
+        ws.push(w);
+    }
+    let mut wa = ws.pop().unwrap();
+    let mut wb = ws.pop().unwrap();
+    let bch = sim.connect(ccfg.clone());
+    wb.ch[CLIENT] = Some(bch);
+    let n_attack = rng.range(20, 400);
+    let mut injected = 0u64;
+    let mut kinds: BTreeMap<&'static str, u64> = BTreeMap::new();
+    let mut ach: Option<usize> = None;
+    let mut a_established_at: Option<u64> = None;
+    let every = rng.range(1, 3);
+    let only_a = rng.chance(1, 2);
+    let caddr = sim.nodes[CLIENT].addr;
+    let saddr = sim.nodes[SERVER].addr;
+    let small: Vec<usize> = (0..=64).collect();
+    let end = sim.run_until(600_000_000_000, 500_000, |sim| {
+        if wb.ch[SERVER].is_none() {
+            if let Some(&ch) = sim.nodes[SERVER].accepted.first() {
+                wb.ch[SERVER] = Some(ch);
+            }
+        }
+        let b_up = sim.nodes[CLIENT].conns[&bch].obs.connected && wb.ch[SERVER].is_some();
+        if b_up && ach.is_none() {
+            let ch = sim.connect(ccfg.clone());
+            wa.ch[CLIENT] = Some(ch);
+            ach = Some(ch);
+        }
+        if let Some(ch) = ach {
+            if wa.ch[SERVER].is_none() {
+                if let Some(&sch) = sim.nodes[SERVER].accepted.get(1) {
+                    wa.ch[SERVER] = Some(sch);
+                }
+            }
+            if a_established_at.is_none() && sim.nodes[CLIENT].conns[&ch].obs.connected {
+                a_established_at = Some(sim.now);
+            }
+            // the attacker
+            if injected < n_attack && sim.steps % every == 0 {
+                injected += 1;
+                let to_server = sim.rng.chance(2, 3);
+                let spoof = sim.rng.chance(2, 3);
+                let (to, from) = if to_server { (saddr, if spoof { caddr } else { addr(53000 + sim.rng.below(3) as u16) }) } else { (caddr, if spoof { saddr } else { addr(54000 + sim.rng.below(3) as u16) }) };
+                let (data, kind) = if sim.history.is_empty() || sim.rng.chance(1, 3) {
+                    let len = if sim.rng.chance(2, 3) { *sim.rng.pick(&small) } else { *sim.rng.pick(&[100usize, 1199, 1200, 1201, 1452, 1500]) };
+                    let mut data = sim.rng.bytes(len);
+                    if len > 0 {
+                        match sim.rng.below(4) {
+                            0 => data[0] = 0x40 | (data[0] & 0x3f),
+                            1 => data[0] |= 0xc0,
+                            2 => data[0] = 0x80 | (data[0] & 0x3f),
+                            _ => {}
+                        }
+                        // half of the long-header garbage carries a plausible version
+                        if data[0] & 0x80 != 0 && len >= 5 && sim.rng.chance(1, 2) {
+                            data[1..5].copy_from_slice(&1u32.to_be_bytes());
+                        }
+                    }
+                    (data, "random")
+                } else {
+                    // mutate a genuine datagram that travelled in the chosen direction
+                    let want = if to_server { CLIENT } else { SERVER };
+                    // B's handles: client side `bch`, server side wb.ch[SERVER]
+                    let b_handle = if want == CLIENT { Some(bch) } else { wb.ch[SERVER] };
+                    // a mutation may leave a genuine packet intact, i.e. act as a replay: from a foreign address only
+                    // datagrams the network has already delivered are used ("replays at any later time"); racing
+                    // the genuine copy from another address is an on-path relay, which QUIC does not defend against
+                    let old_enough = sim.now.saturating_sub(3 * sim.net.latency_ns + 1);
+                    let foreign = from != caddr && from != saddr;
+                    let cands: Vec<usize> = (0..sim.history.len()).filter(|i| sim.history[*i].origin == want && !(foreign && sim.history_at[*i] > old_enough) && !(only_a && (sim.history_ch[*i].is_none() || sim.history_ch[*i] == b_handle))).collect();
+                    if cands.is_empty() {
+                        (vec![0x40], "random")
+                    } else {
+                        let i = cands[sim.rng.below(cands.len() as u64) as usize];
+                        let j = cands[sim.rng.below(cands.len() as u64) as usize];
+                        let g = sim.history[i].data.clone();
+                        let o = sim.history[j].data.clone();
+                        let mut r2 = Rng::new(sim.rng.next());
+                        hostile_mutate(&mut r2, &g, &o)
+                    }
+                };
+                *kinds.entry(kind).or_default() += 1;
+                let node = if to_server { SERVER } else { CLIENT };
+                let at = sim.now;
+                sim.handle_datagram(node, Dgram { at, seq: 0, from, to, ecn: None, data, origin: usize::MAX, genuine: false });
+            }
+        }
+        wb.tick(sim);
+        if ach.is_some() {
+            wa.tick(sim);
+        }
+        wb.complete() && wb.ch[SERVER].is_some() && ach.is_some_and(|ch| !sim.nodes[CLIENT].conns[&ch].obs.lost.is_empty() || (wa.complete() && wa.ch[SERVER].is_some()))
+    });
+    // oracles
+    let lost_b = sim.nodes[CLIENT].conns[&bch].obs.lost.clone();
+    let b_connected = sim.nodes[CLIENT].conns[&bch].obs.connected;
+    let lost_bs = wb.ch[SERVER].map(|sch| sim.nodes[SERVER].conns[&sch].obs.lost.clone()).unwrap_or_default();
+    if b_connected && (!lost_b.is_empty() || !lost_bs.is_empty()) {
+        let key = if only_a { "hostile-bystander-lost" } else { "forged-packet-ended-connection" };
+        sim.fail(key, format!("connection B (established before the attack) lost: client {lost_b:?} server {lost_bs:?} after {injected} hostile datagrams (only A attacked: {only_a})"));
+    }
+    if b_connected && lost_b.is_empty() && lost_bs.is_empty() {
+        wb.final_check(&mut sim, false);
+        if !wb.complete() {
+            let key = if only_a { "hostile-bystander-incomplete" } else { "forged-packets-stalled-connection" };
+            sim.fail(key, format!("workload of B incomplete at end {end:?} (t={} ms, {injected} hostile datagrams)", sim.now / 1_000_000));
+        }
+    }
+    let mut a_up = false;
+    if let Some(ch) = ach {
+        let lost_a = sim.nodes[CLIENT].conns[&ch].obs.lost.clone();
+        let lost_as = wa.ch[SERVER].map(|sch| sim.nodes[SERVER].conns[&sch].obs.lost.clone()).unwrap_or_default();
+        a_up = a_established_at.is_some();
+        if a_up && (!lost_a.is_empty() || !lost_as.is_empty()) {
+            sim.fail("forged-packet-ended-connection", format!("connection A was established at {} ns and then lost: client {lost_a:?} server {lost_as:?}", a_established_at.unwrap()));
+        }
+        if !a_up && !lost_a.is_empty() && !lost_a.iter().all(|l| l.contains("VersionMismatch")) {
+            sim.fail("forged-packet-ended-handshake", format!("connection A failed during its handshake under unauthenticated injection: {lost_a:?}"));
+        }
+        if a_up && lost_a.is_empty() && lost_as.is_empty() {
+            wa.final_check(&mut sim, false);
+            if !wa.complete() {
+                sim.fail("forged-packets-stalled-connection", format!("workload of A incomplete at end {end:?} although the connection stayed up"));
+            }
+        }
+    }
+    let sconns = sim.nodes[SERVER].conns.len() as u64;
+    if sconns > 2 + injected {
+        sim.fail("hostile-connection-table-growth", format!("{sconns} server connections for 2 clients and {injected} hostile datagrams"));
+    }
+    out.runs += 1;
+    out.evaluations += sim.steps + injected;
+    if b_connected && a_up && injected >= 20 {
+        out.nontrivial += 1;
+    }
+    out.count(&format!("end:{end:?}"), 1);
+    out.count("hostile-datagrams", injected);
+    out.count("victim-established", a_up as u64);
+    out.count("server-connections", sconns);
+    for (k, v) in &kinds {
+        out.count(&format!("mutation:{k}"), *v);
+    }
+    if out.samples.len() < 2 {
+        out.samples.push(format!("seed {seed}: {injected} hostile datagrams {kinds:?}; end {end:?} at t={}ms; server connections {sconns}; victim established {a_up}", sim.now / 1_000_000));
+    }
+    if std::env::var("VERIF_SIM_VERBOSE").is_ok() {
+        eprintln!("--- seed {seed}: end {end:?} kinds {kinds:?}");
+        for (n, w) in [("A", &wa), ("B", &wb)] {
+            for node in 0..2 {
+                eprintln!("app {n} node {node}: ch {:?} plans {:?} send {:?} recv {:?}", w.ch[node], w.sides[node].plans, w.sides[node].send, w.sides[node].recv.iter().map(|(k, r)| (*k, r.bytes, r.fin)).collect::<Vec<_>>());
+            }
+        }
+        for node in 0..2 {
+            for (ch, nc) in &sim.nodes[node].conns {
+                eprintln!("node {node} conn {ch}: lost {:?} stats {:?}", nc.obs.lost, nc.conn.stats().path);
+                eprintln!("   snapshot {:?}", nc.conn.verif_snapshot());
+                eprintln!("   frames rx {:?} tx {:?}", nc.conn.stats().frame_rx, nc.conn.stats().frame_tx);
+            }
+        }
+        if std::env::var("VERIF_SIM_VERBOSE").map_or(false, |v| v == "2") {
+            for r in sim.trace.iter().take(600) {
+                eprintln!("{r:?}");
+            }
+        }
     }
     for f in sim.fails.drain(..) {
         out.fails.push(format!("{f} seed={seed}"));
